@@ -12,6 +12,17 @@ syntactically on the function at hand; when a condition does not hold the code i
       loop (a comprehension does not leak it) except where it is bound again.  Then both forms evaluate `it` once, `e`
       (and `c`) once per element in the same order, raise at the same element, and leave the same list in L - the
       partially filled list of a loop that raised is a local nobody else can see.
+
+  guard-continue -> if     for v in it:                          for v in it:
+                               A                                     A
+                               if c: continue             ==>        if not c:
+                               B                                         B
+      at the top level of a loop body (`not c` tests the truth of c exactly as `if c` does); a `continue` that ends the
+      loop body is dropped.
+
+  return of a conditional   return (a if c else b)        ==>    if c: return a
+  expression                                                      else: return b
+      the test first, then only the chosen arm, then the return - in both forms.
 """
 import ast
 import copy
@@ -80,9 +91,37 @@ def _loop_as_comprehension(init, loop, fn):
     return ast.fix_missing_locations(new)
 
 
+def _guard_continue(body):
+    """top level of a loop body"""
+    body = list(body)
+    while body and isinstance(body[-1], ast.Continue) and len(body) > 1:
+        body.pop()
+    for i, s in enumerate(body):
+        if isinstance(s, ast.If) and not s.orelse and len(s.body) == 1 and isinstance(s.body[0], ast.Continue):
+            rest = _guard_continue(body[i + 1:])
+            if not rest:
+                rest = [ast.copy_location(ast.Pass(), s)]
+            test = ast.copy_location(ast.UnaryOp(op=ast.Not(), operand=s.test), s.test)
+            new = ast.copy_location(ast.If(test=test, body=rest, orelse=[]), s)
+            return body[:i] + [ast.fix_missing_locations(new)]
+    return body
+
+
+def _return_ifexp(s):
+    if isinstance(s, ast.Return) and isinstance(s.value, ast.IfExp):
+        e = s.value
+        a = _return_ifexp(ast.copy_location(ast.Return(value=e.body), s))
+        b = _return_ifexp(ast.copy_location(ast.Return(value=e.orelse), s))
+        return ast.fix_missing_locations(ast.copy_location(ast.If(test=e.test, body=[a], orelse=[b]), s))
+    return s
+
+
 def _block(stmts, fn):
     out = []
     for s in stmts:
+        s = _return_ifexp(s)
+        if isinstance(s, (ast.For, ast.While)):
+            s.body = _guard_continue(s.body)
         for field in ("body", "orelse", "finalbody"):
             if isinstance(getattr(s, field, None), list) and not isinstance(s, (ast.FunctionDef, ast.AsyncFunctionDef, ast.ClassDef)):
                 setattr(s, field, _block(getattr(s, field), fn))
